@@ -160,6 +160,32 @@ def c18(ctx):
                                                 "same shape as a whole tree" if got2 != got else real_layout.last_measurement_problem})
             except Exception as e:  # noqa
                 unlisted.append({"shape": shape_wire(s), "problem": "layout of a sub-tree raised " + type(e).__name__})
+        # a COPY of a tree that has been laid out is a tree of the same shape: laid out in turn it gets the
+        # coordinates of a fresh tree of that shape (coordinates depend on the shape only)
+        if not rep and (len(ids_of(s)) + int(ux * 2)) % 2 == 0:
+            try:
+                nodes_c = {}
+                root_c = build(s, nodes_c)
+                TreeLayout().layout(root_c, float(ux), float(uy))
+                copy_c = root_c.clone()
+                mc = TreeLayout().layout(copy_c, float(ux), float(uy))
+                pre = []
+
+                def _pre(n_):
+                    if n_ is not None:
+                        pre.append(n_)
+                        _pre(n_.left)
+                        _pre(n_.right)
+                _pre(copy_c)
+                got3 = ([Fraction(n_.x) for n_ in pre], [Fraction(n_.y) for n_ in pre],
+                        tuple(Fraction(v) for v in (mc.minX, mc.maxX, mc.minY, mc.maxY)))
+                if got3 != got:
+                    unlisted.append({"shape": shape_wire(s), "units": [str(ux), str(uy)],
+                                     "problem": "the layout of a clone of a laid-out tree differs from the layout of a fresh "
+                                                "tree of the same shape",
+                                     "clone_xs": [str(v) for v in got3[0]], "fresh_xs": [str(v) for v in got[0]]})
+            except Exception as e:  # noqa
+                unlisted.append({"shape": shape_wire(s), "problem": "layout of a clone raised " + type(e).__name__})
         m = parse_model(a)
         if m is None or (list(got[0]), list(got[1]), got[2]) != (m[0], m[1], m[2]):
             diffs.append({"shape": shape_wire(s), "units": [str(ux), str(uy)], "repeat": rep,
